@@ -144,6 +144,9 @@ pub enum Step {
     Arrive,
     /// client c sends two autocommit statements in one write; PAUSE db is issued while the first is still running
     PipelinedAcrossPause(u8),
+    /// client c is inside an autocommit COPY FROM STDIN (CopyInResponse received) when PAUSE db is issued; it then sends its data
+    /// and CopyDone (bool: CopyFail instead)
+    CopyAcrossPause(u8, bool),
 }
 
 #[derive(Clone, Debug, Serialize, Deserialize)]
@@ -168,7 +171,7 @@ impl Part for WirePart {
         true
     }
     fn rule(&self) -> String {
-        "two pools (db with 2..5 clients, db2 with one control client), histories of 4..16 steps over {autocommit statement, BEGIN, COMMIT, PAUSE / RESUME for all pools or for db only, a new statement raced against RESUME with a generated 0..4000 µs gap, a newly arriving client, two pipelined autocommit statements with PAUSE arriving while the first runs}, wait_paused jitter hook 0/1/3 ms, worker_threads 1/2/4. Oracle: a transaction whose first message is sent after the PAUSE reply is not received by any backend until RESUME has been sent (transactions already open keep running and COMMIT), the unpaused pool keeps answering, and after the RESUME reply every held statement completes. Non-trivial = RESUME issued while at least one client was held".into()
+        "two pools (db with 2..5 clients, db2 with one control client), histories of 4..16 steps over {autocommit statement, BEGIN, COMMIT, PAUSE / RESUME for all pools or for db only, a new statement raced against RESUME with a generated 0..4000 µs gap, a newly arriving client, two pipelined autocommit statements with PAUSE arriving while the first runs, an autocommit COPY FROM STDIN with PAUSE arriving after its CopyInResponse (finished by CopyDone or CopyFail)}, wait_paused jitter hook 0/1/3 ms, worker_threads 1/2/4. Oracle: a transaction whose first message is sent after the PAUSE reply is not received by any backend until RESUME has been sent (transactions already open keep running and COMMIT), the unpaused pool keeps answering, and after the RESUME reply every held statement completes. Non-trivial = RESUME issued while at least one client was held".into()
     }
     fn cases(&self, tier: Tier) -> u64 {
         tier.pick(1_200, 16_000)
@@ -183,6 +186,7 @@ impl Part for WirePart {
             3 => ((0u8..6), prop_oneof![Just(0u16), 1u16..400, 400u16..4000]).prop_map(|(c, d)| Step::RaceResume(c, d)),
             1 => Just(Step::Arrive),
             1 => (0u8..6).prop_map(Step::PipelinedAcrossPause),
+            1 => ((0u8..6), prop::bool::weighted(0.25)).prop_map(|(c, f)| Step::CopyAcrossPause(c, f)),
         ];
         (2u8..=5, prop_oneof![2 => Just(0u32), 2 => Just(1000u32), 1 => Just(3000u32)], prop_oneof![Just(1u8), Just(2u8), Just(4u8)], prop::collection::vec(step, 4..17))
             .prop_map(|(clients, jitter_us, workers, steps)| WireCase { clients, jitter_us, workers, steps })
@@ -359,6 +363,38 @@ async fn run_wire(c: &WireCase, ctx: &mut WorkerCtx) -> Outcome {
                 }
                 held.push((i, t2));
                 o.label("pipelined_across_pause");
+            }
+            Step::CopyAcrossPause(k, fail) => {
+                let i = *k as usize % n;
+                if paused_db || in_txn[i] || held.iter().any(|(h, _)| *h == i) {
+                    continue;
+                }
+                let t = clis[i].tag();
+                clis[i].send(&proto::query(&format!("{} COPY t FROM STDIN", t.render()))).await;
+                let (m, e) = clis[i].read_until_code(&[b'G'], wire::T_REPLY).await;
+                if !m.iter().any(|x| x.code == b'G') {
+                    fail_and_finish!("statement-not-answered", format!("step {}: COPY FROM STDIN of c{} got no CopyInResponse: {:?}", si, i + 1, e));
+                }
+                let (m, e) = admin.simple("PAUSE db,u", wire::T_REPLY).await;
+                if !matches!(e, ReadEnd::Ready(_)) || m.iter().any(|x| x.code == b'E') {
+                    fail_and_finish!("pause-command-failed", format!("PAUSE db,u -> {:?} {:?}", e, crate::cli::errors(&m)));
+                }
+                paused_db = true;
+                // the COPY was running when the pool was paused: it finishes normally
+                let mut b = proto::copy_data(format!("{}:row1\n", t.short()).as_bytes());
+                b.extend_from_slice(&proto::copy_data(format!("{}:row2\n", t.short()).as_bytes()));
+                if *fail {
+                    b.extend_from_slice(&proto::copy_fail("client gave up"));
+                } else {
+                    b.extend_from_slice(&proto::copy_done());
+                }
+                clis[i].send(&b).await;
+                let (_m, e) = clis[i].read_until_ready(wire::T_REPLY).await;
+                if !matches!(e, ReadEnd::Ready(_)) {
+                    fail_and_finish!("open-transaction-blocked-by-pause", format!("step {}: the COPY FROM STDIN of c{} that was running when PAUSE arrived could not finish while the pool was paused: {:?}", si, i + 1, e));
+                }
+                o.label("copy_across_pause");
+                o.nontrivial = true;
             }
             Step::Pause(only_db) => {
                 let sql = if *only_db { "PAUSE db,u" } else { "PAUSE" };
